@@ -197,7 +197,8 @@ def rows():
 
     R.append(Row(1, "header magic", "StreamHeader::parse",
                  lambda t: t[0] in ("ok", "okp") and has_call(t, "read_tag") and
-                 flow.term_has(t, lambda q: q[0] == "constval" and "XZ_MAGIC" in q[1] and "FOOTER" not in q[1])))
+                 (flow.term_has(t, lambda q: q[0] == "bytes" and tuple(q[1]) == XZ_MAGIC) or
+                  flow.term_has(t, lambda q: q[0] == "constval" and "XZ_MAGIC" in q[1] and "FOOTER" not in q[1]))))
     R.append(Row(2, "header CRC32", "StreamHeader::parse",
                  lambda t: cmp2(t, lambda a: has_call(a, "read_u32") and not has_call(a, "finalize"),
                                 lambda b: has_call(b, "finalize"))))
@@ -241,7 +242,8 @@ def rows():
                                 lambda b: has_call(b, "StreamFlags::parse") and has_call(b, "read_u16"))))
     R.append(Row(19, "footer magic", "decode::xz::decode_stream",
                  lambda t: t[0] in ("ok", "okp") and has_call(t, "read_tag") and
-                 flow.term_has(t, lambda q: q[0] == "constval" and "FOOTER" in q[1])))
+                 (flow.term_has(t, lambda q: q[0] == "bytes" and tuple(q[1]) == XZ_FOOTER) or
+                  flow.term_has(t, lambda q: q[0] == "constval" and "FOOTER" in q[1]))))
     return R
 
 
